@@ -3,12 +3,13 @@
 (`FnSEq.*` in lean/Proofs/FnS*.lean: generated accessor = model function of its defining inputs). Run after adding theorems."""
 import re, os
 ROOT = os.path.dirname(os.path.dirname(os.path.abspath(__file__)))
-HELP = ("s1_", "s2_", "s3_", "s4_", "s5_", "s6_", "s7_", "sb_", "sd_", "sf_", "sr_", "sc_")
+HELP = ("s1_", "s2_", "s3_", "s4_", "s5_", "s6_", "s7_", "sb_", "sd_", "sf_", "sr_", "sc_", "s8_")
 def thms(mod):
     src = open(os.path.join(ROOT, "lean/Proofs", mod + ".lean"), encoding="utf-8").read()
     names = re.findall(r"^(?:@\[simp\] )?theorem ([A-Za-z0-9_']+)", src, re.M)
     return [n for n in names if not n.startswith(HELP)]
 PROPS = {
+ "C03": ("day terms: the regenerated `Lunar.GetJie` / `GetQi` (atom: the term-table entry of index i) scan the even / odd entries of JIE_QI_IN_USE in order, stop at the first one on the civil day of the date and convert the Latin duplicate names — equal to the model's `Lunar.jie` / `Lunar.qi`; parity (a Jie getter can only name an even entry, a Qi getter an odd one) and totality hold for ANY atom", ["FnSJieQi"]),
  "C08": ("accessors: every translated accessor returns `.ok` of the model's value under the index ranges of a library-built object, and panics exactly outside the stated guards", ["FnSBase", "FnS1", "FnS2", "FnS3", "FnSYearObj", "FnSTaoFoto", "FnSDecoders", "FnSNineStarObj", "FnSHex"]),
  "C11": ("two routes, one value: the `Lunar.GetTimeX` accessors and the hour object's (`LunarTime`) accessors, the eight-character object and the `Lunar` pillars are each tied to the SAME model function of the same indices; the two routes to the hour's suitable / avoid lists are the same decoder call; `FnSRoutes`: the agreement stated DIRECTLY between the two generated functions, guard-free (hour object vs lunar date, eight-character object vs lunar date, deprecated aliases)", ["FnSBase", "FnS1", "FnS2", "FnS3", "FnSDecoders", "FnSRoutes"]),
  "C18": ("attributes are functions of their defining inputs: each translated accessor equals a model function applied to the index fields named in its statement only", ["FnSBase", "FnS1", "FnS2", "FnS3", "FnSYearObj", "FnSDecoders", "FnSCongr"]),
@@ -21,6 +22,7 @@ PROPS = {
  "C20": ("zodiac sign and civil festivals: the regenerated `GetXingZuo` equals the model's for all month / day integers; the regenerated `Solar.GetFestivals` is the model's fixed-date + k-th weekday + last-weekday list", ["FnSXingZuo", "FnSSolarFest"]),
 }
 PINS = {
+ "C03": ["calendar.Lunar.GetJie", "calendar.Lunar.GetQi"],
  "C12": ["calendar.LiuNian.GetGanZhi", "calendar.LiuYue.GetGanZhi"],
  "C13": ["calendar.Lunar.GetFestivals", "calendar.Lunar.GetHou", "calendar.Lunar.GetWuHou"],
  "C20": ["calendar.Solar.GetFestivals"],
